@@ -33,8 +33,12 @@ def configure_world(w, prop):
     from . import oracles
 
     if prop == "C09":
+        w.seam.keep_fun = True
         w.extra_oracles.append(oracles.c09_constants)
     if prop == "C10":
+        w.seam.keep_fun = True
         w.extra_oracles.append(oracles.c10_absolute)
+        w.on_edit_raised.append(oracles.c10_edit_raised)
+        w.on_fresh_failure.append(oracles.c10_fresh_failure)
     if prop == "C18":
         pass
